@@ -133,7 +133,7 @@ func runDrain(seed uint64, scale int, out string, _ string) *summary {
 		stable := 0
 		var st uint32
 		var wb uint64
-		deadline := time.Now().Add(2 * time.Second)
+		deadline := time.Now().Add(6 * time.Second)
 		for time.Now().Before(deadline) {
 			st, wb = otter.VerifDrainState(c)
 			if st == 0 && wb == 0 {
@@ -232,7 +232,7 @@ func runDrain(seed uint64, scale int, out string, _ string) *summary {
 		close(start)
 		wg.Wait()
 		// --- all calls have returned: from here on only atomic loads
-		deadline := time.Now().Add(3 * time.Second)
+		deadline := time.Now().Add(8 * time.Second)
 		stable := 0
 		var st uint32
 		var wb uint64
